@@ -825,16 +825,40 @@ class C10Executor(Executor):
         rng = z3.And(j >= 0, j < v.length)
         return VBool(z3.Exists([j], z3.And(rng, cond, t))) if not conj else VBool(z3.ForAll([j], z3.Implies(z3.And(rng, cond), t)))
 
+    def _bytes_truth(self, st, v, conj):
+        """any(b) / all(b) over a byte sequence: some / every byte is non-zero.  When the path condition fixes the length to a
+        small constant the quantifier is written out (a propositional fact per index: no dependence on instantiation luck)."""
+        nz = lambda j: self.as_byte(v.elem(j)).t != bv(0)          # noqa: E731
+        k = None
+        ln = z3.simplify(v.length)
+        if z3.is_int_value(ln):
+            k = ln.as_long()
+        else:
+            for cand in range(0, 1025, 512):
+                if self.feasible(st.pc, v.length == cand) and not self.feasible(st.pc, v.length != cand):
+                    k = cand
+                    break
+        if k is not None and 0 <= k <= 1024:
+            ts = [nz(z3.IntVal(i)) for i in range(k)]
+            return VBool(z3.And(ts + [z3.BoolVal(True)]) if conj else z3.Or(ts + [z3.BoolVal(False)]))
+        j = z3.Int(fresh_name("j!bytes"))
+        rng = z3.And(j >= 0, j < v.length)
+        return VBool(z3.ForAll([j], z3.Implies(rng, nz(j))) if conj else z3.Exists([j], z3.And(rng, nz(j))))
+
     def b_any(self, st, args, kwargs, node):
         v = args[0]
         if isinstance(v, VSeq) and isinstance(v.tag, tuple) and v.tag and v.tag[0] == "genexp":
             return [(st, self._quantify(st, v, False))]
+        if isinstance(v, VSeq) and v.is_bytes and len(args) == 1:
+            return [(st, self._bytes_truth(st, v, False))]
         return super().b_any(st, args, kwargs, node)
 
     def b_all(self, st, args, kwargs, node):
         v = args[0]
         if isinstance(v, VSeq) and isinstance(v.tag, tuple) and v.tag and v.tag[0] == "genexp":
             return [(st, self._quantify(st, v, True))]
+        if isinstance(v, VSeq) and v.is_bytes and len(args) == 1:
+            return [(st, self._bytes_truth(st, v, True))]
         return super().b_all(st, args, kwargs, node)
 
     def _filter_comp(self, n, st):
@@ -2003,12 +2027,16 @@ def with_passthrough(ex, st, cm, phase):
 
 def m_seq_startswith(ex, st, obj, args, kwargs, node):
     """bytes.startswith(prefix | tuple of prefixes) on a byte sequence of symbolic length"""
-    if not (isinstance(obj, VSeq) and obj.is_bytes and len(args) == 1):
+    if not (isinstance(obj, VSeq) and obj.is_bytes and len(args) in (1, 2)) or kwargs:
         return ex.havoc_call(st, "seq.startswith", args, node)
     cands = list(args[0].items) if isinstance(args[0], VTuple) else [args[0]]
     if not all(isinstance(c_, VBytes) for c_ in cands):
         return ex.havoc_call(st, "seq.startswith", args, node)
-    alts = [z3.And([obj.length >= len(c_.items)] + [ex.as_byte(obj.elem(z3.IntVal(i))).t == ex.as_byte(b).t for i, b in enumerate(c_.items)])
+    # startswith(prefix, start) with a constant start >= 0: the prefix is compared at offset start; False when start > len
+    off = args[1].const() if len(args) == 2 and isinstance(args[1], VInt) else (0 if len(args) == 1 else None)
+    if not isinstance(off, int) or isinstance(off, bool) or off < 0:
+        return ex.havoc_call(st, "seq.startswith", args, node)
+    alts = [z3.And([obj.length >= off + len(c_.items)] + [ex.as_byte(obj.elem(z3.IntVal(off + i))).t == ex.as_byte(b).t for i, b in enumerate(c_.items)])
             for c_ in cands]
     return [(st, VBool(z3.Or(alts + [z3.BoolVal(False)])))]
 
